@@ -1,7 +1,7 @@
 #!/bin/sh
 # tools/proc_mut.sh <worktree-name>  -- round-6 style (property named in the first line of notes.md): confirm each mutant, then try it against its property
 wt=$1
-SEEDROOT=${SEEDROOT:-/tmp/seed7}; export SEEDROOT
+SEEDROOT=${SEEDROOT:-/tmp/seed10}; export SEEDROOT
 cd /verif
 timeout 3000 sh tools/confirm_seed.sh $wt
 for v in a b c d e; do
